@@ -68,6 +68,10 @@ def telegrams(rnd, lengths):
                 out.append((Telegram(IndividualAddress(rnd.randrange(1, 65536)), tpci=tpci.TDataConnected(rnd.randrange(16)), payload=mem), "connected"))
                 out.append((Telegram(IndividualAddress(rnd.randrange(1, 65536)), tpci=tpci.TDataIndividual(), payload=mem), "individual"))
     out.append((Telegram(GroupAddress(0), tpci=tpci.TDataBroadcast(), payload=apci.IndividualAddressRead()), "broadcast"))
+    # every transport PDU on the broadcast address, too
+    for pl in (apci.GroupValueRead(), apci.GroupValueWrite(DPTBinary(1)), apci.GroupValueWrite(DPTArray((1, 2, 3))), apci.IndividualAddressWrite(IndividualAddress(0x1203))):
+        out.append((Telegram(GroupAddress(0), tpci=tpci.TDataTagGroup(), payload=pl), "taggroup"))
+        out.append((Telegram(GroupAddress(0), tpci=tpci.TDataBroadcast(), payload=pl), "broadcast"))
     for t in (tpci.TConnect(), tpci.TDisconnect(), tpci.TAck(5), tpci.TNak(15)):
         out.append((Telegram(IndividualAddress(0x1105), tpci=t), "control"))
     return out
@@ -234,8 +238,20 @@ def run13(ck):
     old = signal.signal(signal.SIGALRM, _alarm)
     try:
         for kind, mk, raw in inputs12(ck, rnd):
+            out, fr0 = parse(raw)
+            if out != "frame" or not isinstance(fr0.data, CEMILData):
+                continue
+            # what a forwarder does with a received frame must not leak into the next reception of the same octets
+            try:
+                fr0.data.flags.hop_count = (fr0.data.flags.hop_count - 1) % 8
+                fr0.data.flags.confirm_error = not getattr(fr0.data.flags, "confirm_error", False)
+                fr0.data.flags.priority = list(CEMIPriority)[(list(CEMIPriority).index(fr0.data.flags.priority) + 1) % 4]
+            except Exception:  # noqa: BLE001
+                pass
             out, fr = parse(raw)
             if out != "frame" or not isinstance(fr.data, CEMILData):
+                cases.append({"t": "reser", "out": "raised:SecondParse", "lendiff": 0, "diff": [], "ctrl1": 2, "apci1": 10, "svc": "", "long": 0, "kind": mk, "ft2": -1, "npdu": 0})
+                info.append(raw.hex()[:120])
                 continue
             n = raw[1]
             c = {"t": "reser", "out": "ok", "lendiff": 0, "diff": [], "ctrl1": 2 + n, "apci1": 10 + n, "svc": "", "long": 0, "kind": mk, "ft2": -1, "npdu": raw[8 + n]}
